@@ -4,5 +4,5 @@ export PATH=/root/go/pkg/mod/golang.org/toolchain@v0.0.1-go1.24.0.linux-amd64/bi
 W=$(mktemp -d /verif/.work/nr.XXXXXX); trap 'rm -rf "$W"' EXIT
 pkg=$1; h=$2; rp=$(readlink -f $3)
 python3 /verif/mkoverlay.py "$W/ov.json" "$pkg" "$h" || exit 1
-(cd /repo && go test -c -vet=off -tags verif -overlay "$W/ov.json" -o "$W/n.test" ./internal/$pkg) || exit 1
-cd /repo/internal/$pkg && VERIF_REPLAY=$rp VERIF_HARNESS=$h VERIF_KNOWN=$KNOWN "$W/n.test" -test.run '^TestVerifReplay$' -test.timeout ${TMO:-30}s 2>&1 | grep -E 'VERDICT|OBSERVE|panic|^---' | head -${HEAD:-40}
+(cd ${VERIF_REPO:-/repo} && go test -c -vet=off -tags verif -overlay "$W/ov.json" -o "$W/n.test" ./internal/$pkg) || exit 1
+cd ${VERIF_REPO:-/repo}/internal/$pkg && VERIF_REPLAY=$rp VERIF_HARNESS=$h VERIF_KNOWN=$KNOWN "$W/n.test" -test.run '^TestVerifReplay$' -test.timeout ${TMO:-30}s 2>&1 | grep -E 'VERDICT|OBSERVE|panic|^---' | head -${HEAD:-40}
